@@ -14,6 +14,7 @@ CONFIGS = [
     {"coerce_parent_concurrently": False, "coerce_list_concurrently": False, "parent_concurrently": False, "list_concurrently": False},
     {"sync_arguments": True}, {"parent_concurrently": False}, {"list_concurrently": False, "sync_arguments": True},
     {"coerce_parent_concurrently": False, "parent_concurrently": True, "list_concurrently": False},
+    {"mixed": 1}, {"mixed": 2, "coerce_list_concurrently": False}, {"mixed": 3, "coerce_parent_concurrently": False},   # per-field settings differ from field to field
 ]
 
 def canon_resp(resp):
@@ -71,7 +72,7 @@ def main_explore(pid, tier, seed, m, mutation_only=False, extra_oracle=None):
             for on in sg.mixed[1]:
                 renv["resolvers"][f"{on}.{sg.mixed[2]['name']}"] = {"k": "parentKey", "key": sg.mixed[2]["name"]}
         engines = []
-        for cfg in (CONFIGS if tier != "quick" else rng.sample(CONFIGS, 4)):
+        for cfg in (CONFIGS if tier != "quick" else rng.sample(CONFIGS[:8], 3) + [rng.choice(CONFIGS[8:])]):
             engines.append((cfg, loop.run_until_complete(er.build_engine(sg.model(), renv, cfg=cfg))))
         for di in range(ndocs):
             if time.time() - t0 > (110 if tier == "quick" else 1500): break
